@@ -128,6 +128,30 @@ def _cvc5_run(text: str, timeout_ms: int) -> tuple[str, float, str]:
 	return 'unknown', dt, str(r)
 
 
+CVC5_CLI = '/usr/bin/cvc5'
+
+
+def _cvc5_cli_run(text: str, timeout_ms: int) -> tuple[str, float, str]:
+	"""cvc5 1.0.3 command line (an independent build with different string/sequence heuristics than the 1.4.0 Python binding)."""
+	import subprocess
+	import tempfile
+	if not os.path.exists(CVC5_CLI):
+		return 'error', 0.0, 'cvc5 CLI not installed'
+	t0 = time.time()
+	with tempfile.NamedTemporaryFile('w', suffix='.smt2', delete=False) as f:
+		f.write('(set-logic ALL)\n' + text)
+		path = f.name
+	try:
+		r = subprocess.run([CVC5_CLI, '--strings-exp', f'--tlimit={timeout_ms}', path], capture_output=True, text=True, timeout=timeout_ms / 1000 + 10)
+		out = r.stdout.strip().splitlines()
+		v = out[0] if out else 'error'
+		return (v if v in ('sat', 'unsat', 'unknown') else 'error'), time.time() - t0, (r.stdout + r.stderr)[:300]
+	except Exception as e:  # noqa: BLE001
+		return 'error', time.time() - t0, str(e)[:200]
+	finally:
+		os.unlink(path)
+
+
 @dataclass
 class Result:
 	verdict: str  # proved | refuted | unknown | error
@@ -160,6 +184,13 @@ def discharge_text(text: str, want: list[str], z3_ms: int | None = None, cvc5_ms
 	v2, dt2, detail2 = _cvc5_run(text, cvc5_ms)
 	if v2 == 'unsat':
 		return Result('proved', 'cvc5', dt + dt2, tried=['z3:' + v])
+	if v2 != 'sat':
+		v4, dt4, detail4 = _cvc5_cli_run(text, cvc5_ms)
+		dt2 += dt4
+		if v4 == 'unsat':
+			return Result('proved', 'cvc5-cli', dt + dt2, tried=['z3:' + v, 'cvc5:' + v2])
+		if v4 == 'sat':
+			v2 = 'sat'
 	if v2 != 'sat' and z3_ms > first:
 		v, dt3, model, detail = _z3_run(text, want, z3_ms)
 		dt += dt3
